@@ -89,7 +89,8 @@ def _held_locks(tree_nodes):
 
 
 class Product:
-    def __init__(self, explorer, scn, reduce=True, minimize=True):
+    def __init__(self, explorer, scn, reduce=True, minimize=True, explicit_frontier=False):
+        self.explicit_frontier = explicit_frontier
         self.ex = explorer
         self.scn = scn
         self.rt = explorer_rt(explorer)
@@ -97,6 +98,7 @@ class Product:
         self.env = Env(self.rt, self.threads)
         self.reduce = reduce
         self.auts = {}
+        self.cyclic = False
         self._classify()
         for t in self.threads:
             self.auts[t] = self._build_aut(t)
@@ -189,12 +191,17 @@ class Product:
         seen = {tree.root.id}
 
         def out_edges(m):
-            """(case, child or None) for every candidate case of the op at node m."""
-            cs = self.cases_of(m)
-            res = [(c, m.children.get(c)) for c in cs]
-            for c, ch in m.children.items():
-                if c not in cs:
-                    res.append((c, ch))
+            """(case, child) for every executed case of the op at node m, plus one ELSE edge
+            (child None = FRONTIER) standing for all cases that were never executed."""
+            res = list(m.children.items())
+            if self.explicit_frontier:
+                for c in self.cases_of(m):
+                    if c not in m.children:
+                        res.append((c, None))
+            else:
+                cs = self.cases_of(m)
+                if any(c not in m.children for c in cs) or not cs:
+                    res.append((('$else', tuple(sorted(m.children, key=repr))), None))
             return res
 
         while todo:
@@ -354,6 +361,7 @@ class Product:
             if n in memo:
                 return memo[n]
             if n in onstack:
+                self.cyclic = True
                 return 0
             onstack.add(n)
             r = 0
@@ -375,8 +383,22 @@ def explorer_rt(ex):
 
 
 # ---------------------------------------------------------------------------------------------
+def node_label(aut, i):
+    """Line-number free description of where a thread sits: 'Kind.op@outer>…>inner' """
+    if i in aut.terminal:
+        st = aut.terminal[i]
+        return f'terminated:{st[0]}'
+    inf = aut.info.get(i)
+    if inf is None:
+        return 'frontier' if i == aut.frontier else 'unknown'
+    (obj, kind, op, iargs), loc = inf
+    chain = loc[3] if loc and len(loc) > 3 else ()
+    return f'{kind}.{op}@' + '>'.join(reversed(chain))
+
+
 class Encoding:
-    def __init__(self, prod: Product, scn, por=True, halt=False):
+    def __init__(self, prod: Product, scn, por=True, halt=False, exclude=()):
+        self.exclude = list(exclude)
         self.p = prod
         self.scn = scn
         self.env = prod.env
@@ -414,6 +436,18 @@ class Encoding:
                 if kind == 'Unknown':
                     continue
                 cfg = p.rt.objs[obj][1]
+                if isinstance(case, tuple) and case and case[0] == '$else':
+                    # some case other than the executed ones is enabled: not blocked, and none of
+                    # the executed cases' guards holds (cases of a primitive are mutually exclusive)
+                    Kd = KINDS[kind]
+                    cur = dict(S.v)
+                    S.require(z3.Not(Kd.blocked(S, tid, obj, cfg, op, iargs)))
+                    for c2 in case[1]:
+                        S2 = SymState(cur, self.env)
+                        Kd.sem(S2, tid, obj, cfg, op, iargs, c2)
+                        S.reads |= S2.reads
+                        S.require(z3.Not(z3.And(S2.guards)) if S2.guards else z3.BoolVal(False))
+                    continue
                 KINDS[kind].sem(S, tid, obj, cfg, op, iargs, case)
             pcv = f'$pc.{t}'
             pw = self.vars[pcv][0]
@@ -441,21 +475,22 @@ class Encoding:
         for j in range(self.A):
             cons.append(z3.Implies(sel == j, en[j]))
         cons.append(z3.ULE(sel, bv(self.IDLE, self.SW)))
+        idle = sel == bv(self.IDLE, self.SW)
         if self.halt:
             self.haltpre = z3.Bool('halt@pre')
             self.haltpost = z3.Bool('halt@post')
             cons.append(z3.Implies(self.haltpre, self.haltpost))
-            cons.append(z3.Implies(sel == self.IDLE, z3.Or(z3.Not(anyen), self.haltpost)))
-            cons.append(z3.Implies(self.haltpost, sel == self.IDLE))
+            cons.append(z3.Implies(idle, z3.Or(z3.Not(anyen), self.haltpost)))
+            cons.append(z3.Implies(self.haltpost, idle))
         else:
-            cons.append(z3.Implies(sel == self.IDLE, z3.Not(anyen)))
+            cons.append(z3.Implies(idle, z3.Not(anyen)))
         for n in self.names:
             e = pre[n]
             for j, x in upd.get(n, ()):
                 e = z3.If(sel == j, x, e)
             cons.append(post[n] == e)
         self.trans = z3.And(cons)
-        # POR lookup tables
+        # POR lookup tables (functions of sel only)
         self.MW = MW
         tidt = bv(0, tidw)
         rmt = bv(0, MW)
@@ -478,8 +513,11 @@ class Encoding:
             if stv in pre:
                 dn.append(z3.And(pre[pcv] == bv(aut.init, pw), pre[stv] == 0))  # never started
             done.append(z3.Or(dn) if dn else z3.BoolVal(False))
+            known_tags = [e_['tag'] for e_ in self.exclude if e_.get('kind') == 'fail']
             for i, st in aut.terminal.items():
                 if self.scn.is_fail(t, st):
+                    if any(str(st[1]).startswith(tg) for tg in known_tags):
+                        continue
                     fails.append(pre[pcv] == bv(i, pw))
         fr = []
         for t in p.threads:
@@ -489,6 +527,22 @@ class Encoding:
         self.frontier = z3.Or(fr)
         self.alldone = z3.And(done)
         self.deadlock = z3.And(z3.Not(anyen), z3.Not(self.alldone), z3.Not(self.frontier))
+        # known findings (signature = kind + where every listed thread sits) are excluded from the
+        # violation disjunct, so that the solver's verdict reads "holds except for the listed ones"
+        for ex_ in self.exclude:
+            if ex_.get('kind') != 'deadlock':
+                continue
+            conj = []
+            for t, lab in ex_['where'].items():
+                if t not in p.auts:
+                    conj.append(z3.BoolVal(False))
+                    continue
+                aut = p.auts[t]
+                pcv = f'$pc.{t}'
+                pw = self.vars[pcv][0]
+                ids = [i for i in set(aut.nodes.values()) if node_label(aut, i) == lab]
+                conj.append(z3.Or([pre[pcv] == bv(i, pw) for i in ids]) if ids else z3.BoolVal(False))
+            self.deadlock = z3.And(self.deadlock, z3.Not(z3.And(conj)))
         self.fail = z3.Or(fails) if fails else z3.BoolVal(False)
         self.overflow = pre['$overflow'] == 1
         inv = self.scn.invariant(self.env, SymState(pre, self.env)) if hasattr(self.scn, 'invariant') else None
@@ -538,9 +592,13 @@ class Encoding:
             b = z3.Or(self.at(self.deadlock, k), self.at(self.fail, k), self.at(self.inv_broken, k))
             self.bad.append(b)
         self.front = [self.at(self.frontier, k) for k in range(K + 1)]
+        self.front.append(self.ovf_at_K())
         self.ovf = self.at(self.overflow, K)
         self.running_at_K = self.at(self.anyen, K)
         return self
+
+    def ovf_at_K(self):
+        return self.at(self.overflow, self.K)
 
     # ---- queries ---------------------------------------------------------------------------
     def _solver(self, timeout_s):
@@ -598,4 +656,6 @@ class Encoding:
                              ('deadlock', self.deadlock)):
                 if z3.is_true(m.eval(self.at(pred, k), model_completion=True)):
                     return nm, k
+        if z3.is_true(m.eval(self.ovf_at_K(), model_completion=True)):
+            return 'overflow', self.K
         return None, None
